@@ -178,3 +178,4 @@ P["C06"]["st_any"] = _both(st_kinds({"wallops"}), _fields("user", [2, 9, 10]))
 # the command counters are a write-only frame for every handler except `STATS m`: `bumpCommLine_of_not_stats` (all 41 handlers)
 # and hence `general_serialisable_whole_nostats` (Irc/Props/C18Counters*.lean)
 P["C18"]["extra_modules"] = P["C18"]["extra_modules"] + ["Irc.Props.C18Counters"]
+P["C20"]["st_any"] = _both(_fields("cnt", [5]), _fields("conn", [2]))         # max_connections: slots in use, who is served
